@@ -208,7 +208,7 @@ fn mismatches(cx: &mut Cx, issuer: NodeId, holder: NodeId, key: Arc<KeyMat>, req
     }
     // other bases / other key
     { let mut r = req.clone(); r.bases = key.bases2.0[..n].to_vec(); deliver_request(cx, issuer, key.clone(), r, "misroute_bases".into(), false); }
-    { let other = pool_key((key.idx + 1) % POOL_SIZE); let mut r = req.clone(); r.pk = other.pk.clone(); deliver_request(cx, issuer, key.clone(), r, "misroute_key".into(), false); }
+    if let Some(other) = other_pool_key(key.idx) { let mut r = req.clone(); r.pk = other.pk.clone(); deliver_request(cx, issuer, key.clone(), r, "misroute_key".into(), false); }
     { let mut r = req.clone(); r.c_value += 1; deliver_request(cx, issuer, key.clone(), r, "commitment_value:+1".into(), false); }
     if trusted {
         // the link proof between C and the trusted commitment removed from the frame, while the
@@ -252,6 +252,43 @@ fn mismatches(cx: &mut Cx, issuer: NodeId, holder: NodeId, key: Arc<KeyMat>, req
             deliver_request(cx, issuer, key.clone(), r, format!("forged_simulated_transcript:{hyp}"), false);
         }
     }
+    // Mallory: DIGIT SHIFTING between adjacent parameters of the statement.  The library hashes
+    // decimal strings concatenated without separators; anything keyed or bound by such a string
+    // (a cache of accepted statements, a transcript hash) cannot tell (C, T) from (C minus its
+    // last digits, those digits in front of T), nor (last base a, U = [1, 2]) from (a*10 + 1, [2]).
+    // Replayed right after the honest request was accepted by the same issuer process.
+    {
+        if let Some(ct) = &req.ct_value {
+            for k in [1usize, 3] {
+                let cs = req.c_value.to_string();
+                if cs.len() <= k + 1 { continue; }
+                let (head, tail) = cs.split_at(cs.len() - k);
+                if tail.starts_with('0') { continue; }
+                let mut r = req.clone();
+                r.c_value = head.parse().unwrap();
+                r.ct_value = Some(format!("{tail}{ct}").parse().unwrap());
+                deliver_request(cx, issuer, key.clone(), r, format!("forged_digit_shift:C|C_trusted:{k}"), false);
+            }
+        }
+        if req.hidden.len() >= 2 && req.hidden[0] != 0 {
+            let mut r = req.clone();
+            let h0 = r.hidden.remove(0);
+            let last = r.bases.len() - 1;
+            r.bases[last] = format!("{}{}", r.bases[last], h0).parse().unwrap();
+            if !r.hidden.contains(&last) || true { deliver_request(cx, issuer, key.clone(), r, "forged_digit_shift:last_base|U".into(), false); }
+        }
+        // the same between the two moduli-free neighbours every request has: (C, first revealed attribute)
+        {
+            let cs = req.c_value.to_string();
+            let (head, tail) = cs.split_at(cs.len() - 1);
+            if !tail.starts_with('0') && !req.revealed.is_empty() {
+                let mut r = req.clone();
+                r.c_value = head.parse().unwrap();
+                r.revealed[0] = format!("{tail}{}", r.revealed[0]).parse().unwrap();
+                deliver_request(cx, issuer, key.clone(), r, "forged_digit_shift:C|revealed".into(), false);
+            }
+        }
+    }
     // the per-attribute sub-proof arrays shortened (last entry removed / emptied)
     {
         let v0 = parse(&req.zk_json);
@@ -278,7 +315,7 @@ fn mismatches(cx: &mut Cx, issuer: NodeId, holder: NodeId, key: Arc<KeyMat>, req
     let slice = cx.ch.forced("leaf_slice", nsl.max(1), cx.run_index);
     cx.add("n.proof_leaves", ls.len() as u64);
     for k in (slice * per) as usize..(((slice + 1) * per) as usize).min(ls.len()) {
-        let ps = perturbations(&ls, k);
+        let ps = perturbations_mod(&ls, k, &key.pk.N);
         let pick = cx.ch.choose("perturbation", ps.len() as u64) as usize;
         let (pname, edits) = &ps[pick];
         let mut v2 = v.clone();
